@@ -76,6 +76,20 @@ struct Clock {
     }
 };
 
+// Counter of distinct outcome digests: exact up to `cap` entries, a lower bound beyond (bounds a worker's memory in the
+// long sweeps; the count is evidence about non-vacuity, never an oracle).
+struct DigestSet {
+    std::unordered_set<u64> s;
+    size_t cap = 4000000;
+    void insert(u64 v) {
+        if (s.size() < cap)
+            s.insert(v);
+    }
+    size_t size() const { return s.size(); }
+    auto begin() const { return s.begin(); }
+    auto end() const { return s.end(); }
+};
+
 struct Violation {
     std::string key;    // canonical failing case (matched against known_findings.txt)
     std::string text;   // human explanation
